@@ -1,6 +1,6 @@
 SPECIFICATION MCSpec
 CONSTANTS
-  MaxGen = 6
+  MaxGen = 5
   Windows = {0, 1, 2, 3}
   MaxReq = 5
   FixedWindows = TRUE
